@@ -93,6 +93,11 @@ pub struct Inner {
     /// hard stop for endless streams (bytes), after which the stream errors; protects the harness
     pub endless_stop: u64,
     pub endless_stop_hit: bool,
+    /// documents handed out, in order, for metadata requests that match no file (used where the
+    /// harness must not assume how a name is mapped to a file name); (label, bytes)
+    pub fallback_queue: std::collections::VecDeque<(String, Arc<Vec<u8>>)>,
+    /// (requested path, label) of every fallback answer
+    pub fallback_served: Vec<(String, String)>,
 }
 
 #[derive(Clone)]
@@ -176,14 +181,17 @@ impl MemTransport {
 
 fn chunk_sizes(total: usize, c: &Chunking) -> Vec<usize> {
     let mut v = Vec::new();
+    // an empty resource yields NO chunk at all (as a file or HTTP body of length 0 does), except
+    // under the policy that deliberately interleaves empty chunks
     match c {
-        Chunking::Whole => v.push(total),
+        Chunking::Whole => {
+            if total > 0 {
+                v.push(total);
+            }
+        }
         Chunking::Fixed(n) => {
             let n = (*n).max(1);
             let mut left = total;
-            if total == 0 {
-                v.push(0);
-            }
             while left > 0 {
                 let t = left.min(n);
                 v.push(t);
@@ -193,9 +201,6 @@ fn chunk_sizes(total: usize, c: &Chunking) -> Vec<usize> {
         Chunking::Random(seed, max) => {
             let mut r = crate::rng::Rng::new(*seed);
             let mut left = total;
-            if total == 0 {
-                v.push(0);
-            }
             while left > 0 {
                 let t = (1 + r.usize((*max).max(1))).min(left);
                 v.push(t);
@@ -325,7 +330,21 @@ impl Transport for MemTransport {
             }
         }
         let fault = g.faults.get(&full).cloned().unwrap_or(Fault::None);
-        let data = g.files.get(&full).cloned();
+        let mut data = g.files.get(&full).cloned();
+        if data.is_none() && !g.fallback_queue.is_empty() && full.starts_with("/metadata/") {
+            // never answer the probe for the next root version from the queue
+            let last = full.rsplit('/').next().unwrap_or("");
+            let is_root_probe = last
+                .strip_suffix(".root.json")
+                .map_or(false, |v| !v.is_empty() && v.chars().all(|c| c.is_ascii_digit()));
+            if !is_root_probe {
+                let (label, bytes) = g.fallback_queue.pop_front().unwrap();
+                g.fallback_served.push((full.clone(), label));
+                // from now on the same request gets the same answer
+                g.files.insert(full.clone(), bytes.clone());
+                data = Some(bytes);
+            }
+        }
         let found = data.is_some() && fault != Fault::NotFound;
         g.log.push(Req {
             seq,
